@@ -109,6 +109,15 @@ Theorem C20_ptrkey_refuted :
   r1 <> r2.
 Proof. exact ptrkey_refuted. Qed.
 Print Assumptions C20_ptrkey_refuted.
+(** the miss path must look again atomically with the insertion (LoadOrStore): a table that is read under a read lock
+    and then written under the write lock WITHOUT a second look gives two concurrent first lookups of one pair two
+    paths (threads 0 and 1), and every later lookup (thread 2) the second of them *)
+Theorem C20_unchecked_store_refuted :
+  let k := (0x100000801, 7) in
+  let s := frun_unchecked (finit [k; k; k]) [0; 1; 0; 1; 2]%nat in
+  f_thr s = [FDone k (next0 + 1); FDone k (next0 + 2); FDone k (next0 + 2)].
+Proof. exact unchecked_store_refuted. Qed.
+Print Assumptions C20_unchecked_store_refuted.
 
 (** modes: for all 7 valid types and all 12-bit permission values (4096, incl.
     setuid, setgid, sticky) OSMode then ModeFromOS is the identity *)
